@@ -8,6 +8,7 @@
      new        section: a new server instance (batch size, fault percentage, log level)
      round      a round begins (state of the round is reset)
      arrive     the harness sent datagram `id` from socket `sock`; f = features computed by I
+                (field `unroutable` present: sent through a raw socket with source port 0, so the server's send_to fails)
      pumped     process_events returned (or panicked); wedged = it went idle with datagrams unconsumed
      reply      a datagram received on a harness socket, with the facts computed by I
      round_end  quiescence: exactly-once accounting
@@ -23,7 +24,7 @@ tvars == <<reqs, roots, totals, l, fault>>
 Bad(reasons) == IF reasons = {} THEN TRUE ELSE TLCSet(2, TLCGet(2) \o <<[i |-> l, why |-> reasons]>>)
 SetOf(seq) == {seq[i] : i \in 1..Len(seq)}
 
-ZeroTotals == [arrivals |-> 0, replies |-> 0, bytes |-> 0, greased |-> 0, failing |-> 0]
+ZeroTotals == [arrivals |-> 0, replies |-> 0, bytes |-> 0, greased |-> 0, failing |-> 0, unroutable |-> 0]
 
 TInit == /\ l = 1 /\ TLCSet(2, <<>>) /\ reqs = NoReqs /\ roots = {} /\ totals = ZeroTotals /\ fault = [p |-> 0, b |-> 0]
 
@@ -43,7 +44,7 @@ TNext ==
        CASE e.ev = "new" -> /\ Bad(IF e.announced_ok THEN {} ELSE {"announced_key"})
                             /\ reqs' = NoReqs /\ roots' = {} /\ totals' = ZeroTotals /\ fault' = [p |-> e.fault, b |-> e.batch]
          [] e.ev = "round" -> (IF "discarded" \in DOMAIN e THEN UNCHANGED <<reqs, roots, totals>> ELSE RoundBegin) /\ UNCHANGED fault
-         [] e.ev = "arrive" -> Receive(e.sock, e.f) /\ UNCHANGED fault
+         [] e.ev = "arrive" -> Receive(e.sock, e.f, ~("unroutable" \in DOMAIN e)) /\ UNCHANGED fault
          [] e.ev = "pumped" -> /\ Bad((IF e.panic THEN {"panic"} ELSE {}) \cup (IF e.wedged THEN {"wedged"} ELSE {}))
                                /\ UNCHANGED <<reqs, roots, totals, fault>>
          [] e.ev = "reply" -> /\ Bad(RespondReasons(Rp(e)) \cup RootReasons(Rp(e)))
@@ -53,8 +54,10 @@ TNext ==
                                  /\ UNCHANGED <<reqs, roots, totals, fault>>
          [] e.ev = "log" -> /\ Bad(IF e.leak THEN {"leak_in_log"} ELSE {}) /\ UNCHANGED <<reqs, roots, totals, fault>>
          [] e.ev = "stats" ->
-              /\ Bad((IF e.valid = totals.replies THEN {} ELSE {"stats_valid_requests"})
-                     \cup (IF e.invalid = totals.arrivals - totals.replies THEN {} ELSE {"stats_invalid_requests"})
+              \* a valid request whose response could not be sent (unroutable source) counts as valid and as ONE failed send
+              /\ Bad((IF e.valid = totals.replies + totals.unroutable THEN {} ELSE {"stats_valid_requests"})
+                     \cup (IF e.invalid = totals.arrivals - totals.replies - totals.unroutable THEN {} ELSE {"stats_invalid_requests"})
+                     \cup (IF "failed" \in DOMAIN e /\ e.failed # totals.unroutable THEN {"stats_failed_sends"} ELSE {})
                      \cup (IF e.responses = totals.replies THEN {} ELSE {"stats_responses"})
                      \cup (IF e.bytes = totals.bytes THEN {} ELSE {"stats_bytes"}))
               /\ UNCHANGED <<reqs, roots, totals, fault>>
